@@ -125,7 +125,8 @@ fn body_placements(ch: &Ch) -> Run {
   let mut run = Run::default();
   let failure = FAILURES[ch.shape("failure", FAILURES.len())];
   let edge = EDGES[ch.shape("edge", EDGES.len())];
-  let hops = ch.shape("redirect_hops", 4);
+  // 0..3 hops, and the loader's limit (10) and one below it
+  let hops = [0usize, 1, 2, 3, 9, 10][ch.shape("redirect_hops", 6)];
   let sibling = ch.flag("healthy_sibling");
   let remote = matches!(failure, "https-to-http" | "remote-imports-file-literal") || ch.flag("remote");
   let base = if remote { "https://x/" } else { "file:///w/" };
@@ -451,7 +452,7 @@ pub fn prop(tier: Tier) -> Prop {
     name: "placements",
     body: Box::new(body_placements),
     modes: vec![Mode::Full],
-    what: "9 failure kinds x 6 edge kinds x 0..3 redirect hops x sibling x local/remote; expected verdict known by construction; 36 option sets + valid()",
+    what: "9 failure kinds x 6 edge kinds x {0,1,2,3,9,10} redirect hops x sibling x local/remote; expected verdict known by construction; 36 option sets + valid()",
   }];
   match tier {
     Tier::Quick => parts.push(Part {
@@ -506,7 +507,7 @@ pub fn prop(tier: Tier) -> Prop {
   });
   Prop {
     id: "C02",
-    rule: "placements: state = (failure kind, edge kind, redirect hops 0..3, healthy sibling, local/remote); the verdict of validate() under each of the 36 walk option sets and of valid() is compared with the verdict known by construction AND with an independent reachability computation over the graph's recorded dependencies; worlds: deviation-bounded generic worlds compared with the reachability reference only. Non-trivial = scenario/world that contains a failure.".into(),
+    rule: "placements: state = (failure kind, edge kind, redirect hops 0..3 / 9 / 10, healthy sibling, local/remote); the verdict of validate() under each of the 36 walk option sets and of valid() is compared with the verdict known by construction AND with an independent reachability computation over the graph's recorded dependencies; worlds: deviation-bounded generic worlds compared with the reachability reference only. Non-trivial = scenario/world that contains a failure.".into(),
     assumptions: vec![
       "graphs are built with kind All so that every edge kind is recorded; walk options vary".into(),
       "invalid-json-assertion is only placed on attribute-capable edges (static and dynamic imports)".into(),
